@@ -5,14 +5,19 @@ package main
 import (
 	"bytes"
 	"context"
+	"errors"
 	"fmt"
 	"io"
 	"net/http"
+	"net/url"
 	"strconv"
 	"strings"
+	"sync"
+	"time"
 
 	"github.com/opencontainers/go-digest"
 	ocispec "github.com/opencontainers/image-spec/specs-go/v1"
+	oras "oras.land/oras-go/v2"
 	"oras.land/oras-go/v2/registry"
 	"oras.land/oras-go/v2/registry/remote"
 	"verifharness/common"
@@ -24,11 +29,72 @@ var opManifestDesc = ocispec.Descriptor{MediaType: ocispec.MediaTypeImageManifes
 // recTransport records every request and answers like a registry that holds
 // opManifest under every manifest reference and every blob digest.
 type recTransport struct {
-	reqs []*http.Request
+	mu      sync.Mutex
+	reqs    []*http.Request
+	dead    bool // set by the watchdog: every further request fails
+	runaway bool // more than maxRequests requests in one operation
+}
+
+// no operation of this harness needs more than a handful of requests: a pagination or retry loop
+// that does not terminate is cut here (and reported) instead of wedging the run
+const maxRequests = 40
+
+// requests returns what was recorded so far (the operation may still be running if it wedged)
+func (t *recTransport) requests() []*http.Request {
+	t.mu.Lock()
+	defer t.mu.Unlock()
+	return append([]*http.Request(nil), t.reqs...)
+}
+
+// guard runs one operation under a watchdog: an operation that does not return within the limit
+// is abandoned (its transport starts failing) and reported as an oracle failure by the caller.
+func (t *recTransport) guard(op func(ctx context.Context)) (hung bool) {
+	if !t.guardOnce(op, 5*time.Second) {
+		return false
+	}
+	// a time-out is re-confirmed before it is reported: the same operation once more, from a
+	// clean transport state, with a three times longer limit (a loaded machine is not a wedge)
+	t.mu.Lock()
+	t.reqs, t.dead, t.runaway = nil, false, false
+	t.mu.Unlock()
+	return t.guardOnce(op, 15*time.Second)
+}
+
+func (t *recTransport) guardOnce(op func(ctx context.Context), limit time.Duration) (hung bool) {
+	ctx, cancel := context.WithCancel(context.Background())
+	defer cancel()
+	done := make(chan struct{})
+	go func() {
+		defer close(done)
+		op(ctx)
+	}()
+	select {
+	case <-done:
+		return false
+	case <-time.After(limit):
+		t.mu.Lock()
+		t.dead = true
+		t.mu.Unlock()
+		cancel()
+		select {
+		case <-done:
+		case <-time.After(2 * time.Second):
+		}
+		return true
+	}
 }
 
 func (t *recTransport) RoundTrip(req *http.Request) (*http.Response, error) {
+	t.mu.Lock()
+	if t.dead || len(t.reqs) >= maxRequests {
+		if !t.dead {
+			t.runaway = true
+		}
+		t.mu.Unlock()
+		return nil, errors.New("verif: transport closed")
+	}
 	t.reqs = append(t.reqs, req)
+	t.mu.Unlock()
 	if req.Body != nil {
 		io.Copy(io.Discard, req.Body)
 		req.Body.Close()
@@ -63,13 +129,16 @@ func (t *recTransport) RoundTrip(req *http.Request) (*http.Response, error) {
 // replay: variant forced
 var forcedVariant = -1
 
+// wedges counts operations cut by the watchdog
+var wedges int
+
 var opKinds = []string{"mresolve", "mfetchref", "tag", "pushref", "bresolve", "bfetchref"}
 
 // runOp: variant bit 0-1 = referrers capability (0 supported, 1 unsupported, 2/3 unknown: the
 // manifest has no subject, so every state must emit the same single PUT -- the unknown/unsupported
 // states go through the second push call site of pushWithIndexing), bit 2 = call the Repository
 // wrapper instead of the manifest store.
-func runOp(base registry.Reference, op string, plain bool, in string, variant int) []*http.Request {
+func runOp(base registry.Reference, op string, plain bool, in string, variant int) ([]*http.Request, bool) {
 	t := &recTransport{}
 	repo := &remote.Repository{Reference: base, PlainHTTP: plain, Client: &http.Client{Transport: t}}
 	switch variant & 3 {
@@ -80,47 +149,48 @@ func runOp(base registry.Reference, op string, plain bool, in string, variant in
 	}
 	wrapper := variant&4 != 0
 	run.Count(fmt.Sprintf("op_variant_%d", variant&7))
-	ctx := context.Background()
-	switch op {
-	case "mresolve":
-		if wrapper {
-			repo.Resolve(ctx, in)
-		} else {
-			repo.Manifests().Resolve(ctx, in)
+	hung := t.guard(func(ctx context.Context) {
+		switch op {
+		case "mresolve":
+			if wrapper {
+				repo.Resolve(ctx, in)
+			} else {
+				repo.Manifests().Resolve(ctx, in)
+			}
+		case "mfetchref":
+			var rc io.ReadCloser
+			var err error
+			if wrapper {
+				_, rc, err = repo.FetchReference(ctx, in)
+			} else {
+				_, rc, err = repo.Manifests().FetchReference(ctx, in)
+			}
+			if err == nil {
+				rc.Close()
+			}
+		case "tag":
+			if wrapper {
+				repo.Tag(ctx, opManifestDesc, in)
+			} else {
+				repo.Manifests().Tag(ctx, opManifestDesc, in)
+			}
+		case "pushref":
+			if wrapper {
+				repo.PushReference(ctx, opManifestDesc, bytes.NewReader(opManifest), in)
+			} else {
+				repo.Manifests().PushReference(ctx, opManifestDesc, bytes.NewReader(opManifest), in)
+			}
+		case "bresolve":
+			repo.Blobs().Resolve(ctx, in)
+		case "bfetchref":
+			if _, rc, err := repo.Blobs().FetchReference(ctx, in); err == nil {
+				rc.Close()
+			}
+		default:
+			panic("op " + op)
 		}
-	case "mfetchref":
-		var rc io.ReadCloser
-		var err error
-		if wrapper {
-			_, rc, err = repo.FetchReference(ctx, in)
-		} else {
-			_, rc, err = repo.Manifests().FetchReference(ctx, in)
-		}
-		if err == nil {
-			rc.Close()
-		}
-	case "tag":
-		if wrapper {
-			repo.Tag(ctx, opManifestDesc, in)
-		} else {
-			repo.Manifests().Tag(ctx, opManifestDesc, in)
-		}
-	case "pushref":
-		if wrapper {
-			repo.PushReference(ctx, opManifestDesc, bytes.NewReader(opManifest), in)
-		} else {
-			repo.Manifests().PushReference(ctx, opManifestDesc, bytes.NewReader(opManifest), in)
-		}
-	case "bresolve":
-		repo.Blobs().Resolve(ctx, in)
-	case "bfetchref":
-		if _, rc, err := repo.Blobs().FetchReference(ctx, in); err == nil {
-			rc.Close()
-		}
-	default:
-		panic("op " + op)
-	}
-	return t.reqs
+	})
+	return t.requests(), hung || t.runaway
 }
 
 // opCase runs one operation; want != "" is the generator's ground truth for the
@@ -131,7 +201,17 @@ func opCase(base registry.Reference, op string, plain bool, in, want string) {
 	if forcedVariant >= 0 {
 		variant = forcedVariant
 	}
-	reqs := runOp(base, op, plain, in, variant)
+	if wedges >= 3 { // the operations wedge systematically: reported three times, do not wait again
+		run.Count("op_skipped_after_hangs")
+		return
+	}
+	reqs, wedged := runOp(base, op, plain, in, variant)
+	if wedged {
+		wedges++
+		run.OracleFail(id, "op-hang", fmt.Sprintf("%s(%q) on %v did not return within the watchdog limit (5 s, re-confirmed with 15 s) or sent more than %d requests (%d recorded)", op, in, base, maxRequests, len(reqs)),
+			map[string]any{"op": "O", "kind": op, "plain": plain, "registry": base.Registry, "repository": base.Repository, "input": in, "want": want, "variant": strconv.Itoa(variant)})
+		return
+	}
 	var sb strings.Builder
 	sb.WriteString("REQS")
 	for _, q := range reqs {
@@ -210,6 +290,377 @@ func opForms(base registry.Reference, tag, dg string) {
 	for _, f := range forms {
 		for _, op := range opKinds {
 			opCase(base, op, run.Rand.Bool(), f.in, f.want)
+		}
+	}
+}
+
+// ---------- operations that build their URL from the base repository and a descriptor ----------
+
+var descOpKinds = []string{"dmfetch", "dmdelete", "dbfetch", "dbdelete", "dreferrers", "dmount", "dbpush", "dtags"}
+
+// cleanForURL: the request URL is observed through net/http (URL.String()), which re-encodes some
+// bytes of a path; descriptor digests that are not valid digests are used only when made of
+// characters URL.String() leaves alone
+func cleanForURL(s string) bool {
+	for i := 0; i < len(s); i++ {
+		c := s[i]
+		if !(isWord(c) || c == ':' || c == '+' || c == '.' || c == '-') {
+			return false
+		}
+	}
+	return s != ""
+}
+
+func runDescOp(base registry.Reference, op string, plain bool, d, a1 string, n int, wrapper bool) ([]*http.Request, bool) {
+	t := &recTransport{}
+	repo := &remote.Repository{Reference: base, PlainHTTP: plain, Client: &http.Client{Transport: t}}
+	repo.SetReferrersCapability(true)
+	repo.TagListPageSize, repo.ReferrerListPageSize = n, n
+	mdesc := ocispec.Descriptor{MediaType: ocispec.MediaTypeImageManifest, Digest: digest.Digest(d), Size: int64(len(opManifest))}
+	bdesc := ocispec.Descriptor{MediaType: "application/octet-stream", Digest: digest.Digest(d), Size: int64(len(opManifest))}
+	hung := t.guard(func(ctx context.Context) {
+		switch op {
+		case "dmfetch":
+			var rc io.ReadCloser
+			var err error
+			if wrapper {
+				rc, err = repo.Fetch(ctx, mdesc)
+			} else {
+				rc, err = repo.Manifests().Fetch(ctx, mdesc)
+			}
+			if err == nil {
+				rc.Close()
+			}
+		case "dmdelete":
+			if wrapper {
+				repo.Delete(ctx, mdesc)
+			} else {
+				repo.Manifests().Delete(ctx, mdesc)
+			}
+		case "dbfetch":
+			var rc io.ReadCloser
+			var err error
+			if wrapper {
+				rc, err = repo.Fetch(ctx, bdesc)
+			} else {
+				rc, err = repo.Blobs().Fetch(ctx, bdesc)
+			}
+			if err == nil {
+				rc.Close()
+			}
+		case "dbdelete":
+			if wrapper {
+				repo.Delete(ctx, bdesc)
+			} else {
+				repo.Blobs().Delete(ctx, bdesc)
+			}
+		case "dreferrers":
+			repo.Referrers(ctx, mdesc, a1, func([]ocispec.Descriptor) error { return nil })
+		case "dmount":
+			repo.Mount(ctx, bdesc, a1, nil)
+		case "dbpush":
+			if wrapper {
+				repo.Push(ctx, bdesc, bytes.NewReader(opManifest))
+			} else {
+				repo.Blobs().Push(ctx, bdesc, bytes.NewReader(opManifest))
+			}
+		case "dtags":
+			repo.Tags(ctx, a1, func([]string) error { return nil })
+		default:
+			panic("descop " + op)
+		}
+	})
+	return t.requests(), hung || t.runaway
+}
+
+// descOpCase: d = descriptor digest, a1 = artifactType filter / source repository / last tag,
+// n = page size (<= 0: not set).  Oracle (independent of the model): every request goes to the
+// base repository's slot for the operation, and its query decodes (url.ParseQuery) to exactly the
+// documented parameters.
+func descOpCase(base registry.Reference, op string, plain bool, d, a1 string, n int) {
+	id := run.NewID()
+	wrapper := run.Rand.Bool()
+	if forcedVariant >= 0 {
+		wrapper = forcedVariant&4 != 0
+	}
+	if wedges >= 3 {
+		run.Count("op_skipped_after_hangs")
+		return
+	}
+	reqs, wedged := runDescOp(base, op, plain, d, a1, n, wrapper)
+	if wedged {
+		wedges++
+		run.OracleFail(id, "op-hang", fmt.Sprintf("%s(%q,%q,%d) on %v did not return within the watchdog limit (5 s, re-confirmed with 15 s) or sent more than %d requests (%d recorded)", op, d, a1, n, base, maxRequests, len(reqs)),
+			map[string]any{"op": "D", "kind": op, "plain": plain, "registry": base.Registry, "repository": base.Repository, "reference": d, "input": a1, "n": strconv.Itoa(n)})
+		return
+	}
+	var sb strings.Builder
+	sb.WriteString("REQS")
+	for _, q := range reqs {
+		sb.WriteString(" " + common.Hex(q.Method) + ":" + common.Hex(q.URL.String()))
+	}
+	p := "0"
+	if plain {
+		p = "1"
+	}
+	num := ""
+	if n > 0 {
+		num = strconv.Itoa(n)
+	}
+	run.Case(id, fmt.Sprintf("D %s %s %s %s %s %s %s", op, p, common.Hex(base.Registry), common.Hex(base.Repository), common.Hex(d), common.Hex(a1), common.Hex(num)), sb.String())
+	run.Count("descop_" + op)
+	if len(reqs) > 0 {
+		run.Nontrivial("D:" + op + p + base.String() + "|" + d + "|" + a1 + "|" + num)
+	}
+	rep := map[string]any{"op": "D", "kind": op, "plain": plain, "registry": base.Registry, "repository": base.Repository, "reference": d, "input": a1, "n": strconv.Itoa(n)}
+	if !okDigest(d) {
+		run.Count("descop_invalid_digest_unjudged")
+		return // a descriptor whose digest is not a digest: caller inconsistency, compared with the model only
+	}
+	method := map[string]string{"dmfetch": "GET", "dmdelete": "DELETE", "dbfetch": "GET", "dbdelete": "DELETE", "dreferrers": "GET", "dmount": "POST", "dbpush": "POST", "dtags": "GET"}[op]
+	tail := map[string]string{"dmfetch": "manifests/" + d, "dmdelete": "manifests/" + d, "dbfetch": "blobs/" + d, "dbdelete": "blobs/" + d,
+		"dreferrers": "referrers/" + d, "dmount": "blobs/uploads/", "dbpush": "blobs/uploads/", "dtags": "tags/list"}[op]
+	want := url.Values{}
+	switch op {
+	case "dreferrers":
+		if a1 != "" {
+			want.Set("artifactType", a1)
+		}
+		if n > 0 {
+			want.Set("n", strconv.Itoa(n))
+		}
+	case "dmount":
+		if !okRepository(a1) {
+			run.Count("descop_mount_from_invalid_unjudged")
+			return
+		}
+		want.Set("mount", d)
+		want.Set("from", a1)
+	case "dtags":
+		if a1 != "" {
+			want.Set("last", a1)
+		}
+		if n > 0 {
+			want.Set("n", strconv.Itoa(n))
+		}
+	}
+	run.Count("descop_judged")
+	if len(reqs) != 1 {
+		run.OracleFail(id, "descop-requests", fmt.Sprintf("%s(%q,%q,%d) on %v sent %d requests, want 1", op, d, a1, n, base, len(reqs)), rep)
+		return
+	}
+	q := reqs[0]
+	got, qerr := url.ParseQuery(q.URL.RawQuery)
+	okq := qerr == nil && len(got) == len(want)
+	for k, v := range want {
+		okq = okq && len(got[k]) == 1 && got[k][0] == v[0]
+	}
+	wantScheme := "https"
+	if plain {
+		wantScheme = "http"
+	}
+	if q.Method != method || q.URL.Scheme != wantScheme || q.URL.Host != base.Host() || q.URL.User != nil || q.URL.Fragment != "" ||
+		q.URL.EscapedPath() != "/v2/"+base.Repository+"/"+tail || !okq {
+		run.OracleFail(id, "descop-url", fmt.Sprintf("%s(%q,%q,%d) on %v sent %s %s; want %s %s://%s/v2/%s/%s with query exactly %v", op, d, a1, n, base, q.Method, q.URL, method, wantScheme, base.Host(), base.Repository, tail, want), rep)
+	}
+}
+
+// ---------- constructors (how a base comes to exist) and the Registry's own requests ----------
+
+// newRepositoryCase: remote.NewRepository(s) accepts exactly what ParseReference accepts and the
+// base is the parsed reference; then one Resolve through the constructed value.
+func newRepositoryCase(s string) {
+	id := run.NewID()
+	repo, err := remote.NewRepository(s)
+	obs := "ERR"
+	if err == nil {
+		obs = showRef(repo.Reference)
+		run.Count("newrepo_ok")
+		run.Nontrivial("N:" + s)
+	}
+	run.Case(id, "N repo "+common.Hex(s)+" -", obs)
+	run.Count("newrepo")
+	ref, perr := registry.ParseReference(s)
+	if (err == nil) != (perr == nil) || (err == nil && repo.Reference != ref) {
+		run.OracleFail(id, "new-repository", fmt.Sprintf("NewRepository(%q) = %v, %v but ParseReference = %+v, %v", s, repo, err, ref, perr), map[string]string{"op": "N", "kind": "repo", "input": s})
+	}
+}
+
+// registryRepositoryCase: NewRegistry(name) then Registry.Repository(ctx, sub)
+func registryRepositoryCase(name, sub string) {
+	id := run.NewID()
+	obs := "ERR"
+	reg, err := remote.NewRegistry(name)
+	if (err == nil) != (registryVerdict(name) == 1) {
+		run.OracleFail(id, "new-registry", fmt.Sprintf("NewRegistry(%q) accepted=%v, the registry grammar says %v", name, err == nil, registryVerdict(name) == 1), map[string]string{"op": "N", "kind": "reg", "input": name, "reference": sub})
+	}
+	if err == nil {
+		obs = "REGOK"
+		run.Count("newregistry_ok")
+		r, err2 := reg.Repository(context.Background(), sub)
+		if err2 == nil {
+			rr := r.(*remote.Repository)
+			obs = showRef(rr.Reference)
+			run.Count("registry_repository_ok")
+			if rr.Reference.Registry != name || rr.Reference.Repository != sub || rr.Reference.Reference != "" || !okRepository(sub) {
+				run.OracleFail(id, "registry-repository", fmt.Sprintf("NewRegistry(%q).Repository(%q) = %+v", name, sub, rr.Reference), map[string]string{"op": "N", "kind": "reg", "input": name, "reference": sub})
+			}
+		} else if okRepository(sub) {
+			run.OracleFail(id, "registry-repository", fmt.Sprintf("NewRegistry(%q).Repository(%q) refused: %v", name, sub, err2), map[string]string{"op": "N", "kind": "reg", "input": name, "reference": sub})
+		}
+	}
+	run.Case(id, "N reg "+common.Hex(name)+" "+common.Hex(sub), obs)
+	run.Count("newregistry")
+}
+
+// regOpCase: Ping / Repositories(last) with page size n on a Registry value
+func regOpCase(name, op string, plain bool, last string, n int) {
+	id := run.NewID()
+	if wedges >= 3 {
+		return
+	}
+	t := &recTransport{}
+	reg := &remote.Registry{RepositoryOptions: remote.RepositoryOptions{Reference: registry.Reference{Registry: name}, PlainHTTP: plain, Client: &http.Client{Transport: t}}}
+	reg.RepositoryListPageSize = n
+	hung := t.guard(func(ctx context.Context) {
+		if op == "rping" {
+			reg.Ping(ctx)
+		} else {
+			reg.Repositories(ctx, last, func([]string) error { return nil })
+		}
+	})
+	reqs := t.requests()
+	rep := map[string]any{"op": "E", "kind": op, "plain": plain, "registry": name, "input": last, "n": strconv.Itoa(n)}
+	if hung || t.runaway {
+		wedges++
+		run.OracleFail(id, "op-hang", fmt.Sprintf("%s on registry %q did not return (%d requests)", op, name, len(reqs)), rep)
+		return
+	}
+	var sb strings.Builder
+	sb.WriteString("REQS")
+	for _, q := range reqs {
+		sb.WriteString(" " + common.Hex(q.Method) + ":" + common.Hex(q.URL.String()))
+	}
+	p := "0"
+	if plain {
+		p = "1"
+	}
+	num := ""
+	if n > 0 {
+		num = strconv.Itoa(n)
+	}
+	run.Case(id, fmt.Sprintf("E %s %s %s %s %s", op, p, common.Hex(name), common.Hex(last), common.Hex(num)), sb.String())
+	run.Count("regop_" + op)
+	want := url.Values{}
+	path := "/v2/"
+	if op == "rcatalog" {
+		path = "/v2/_catalog"
+		if last != "" {
+			want.Set("last", last)
+		}
+		if n > 0 {
+			want.Set("n", num)
+		}
+	}
+	if len(reqs) != 1 {
+		run.OracleFail(id, "regop-url", fmt.Sprintf("%s on %q sent %d requests", op, name, len(reqs)), rep)
+		return
+	}
+	q := reqs[0]
+	got, qerr := url.ParseQuery(q.URL.RawQuery)
+	okq := qerr == nil && len(got) == len(want)
+	for k, v := range want {
+		okq = okq && len(got[k]) == 1 && got[k][0] == v[0]
+	}
+	host := registry.Reference{Registry: name}.Host()
+	if q.Method != "GET" || q.URL.Host != host || q.URL.User != nil || q.URL.Fragment != "" || q.URL.EscapedPath() != path || !okq {
+		run.OracleFail(id, "regop-url", fmt.Sprintf("%s(%q,%d) on registry %q sent %s %s; want GET //%s%s with query exactly %v", op, last, n, name, q.Method, q.URL, host, path, want), rep)
+	}
+}
+
+// ---------- top-level oras.Tag / oras.TagN on a remote Repository ----------
+
+// orasTagCase: oras.Tag (one destination) / oras.TagN (Concurrency 1) from src to dsts.  Oracle:
+// every request is in the base repository's manifest slot; when src and all destinations are
+// given in forms whose resolved reference is known (wantSrc / wantDsts, "" = unknown), the GET names
+// the resolved source and the PUTs name the resolved destinations, in order.
+func orasTagCase(base registry.Reference, plain bool, src string, dsts []string, wantSrc string, wantDsts []string) {
+	id := run.NewID()
+	if wedges >= 3 {
+		return
+	}
+	t := &recTransport{}
+	repo := &remote.Repository{Reference: base, PlainHTTP: plain, Client: &http.Client{Transport: t}}
+	if run.Rand.Bool() {
+		repo.SetReferrersCapability(true)
+	}
+	hung := t.guard(func(ctx context.Context) {
+		if len(dsts) == 1 && run.Rand.Bool() {
+			oras.Tag(ctx, repo, src, dsts[0])
+		} else {
+			oras.TagN(ctx, repo, src, dsts, oras.TagNOptions{Concurrency: 1})
+		}
+	})
+	reqs := t.requests()
+	rep := map[string]any{"op": "T", "plain": plain, "registry": base.Registry, "repository": base.Repository, "input": src, "dsts": strings.Join(dsts, "\x00")}
+	if hung || t.runaway {
+		wedges++
+		run.OracleFail(id, "op-hang", fmt.Sprintf("oras.TagN(%q -> %q) on %v did not return (%d requests)", src, dsts, base, len(reqs)), rep)
+		return
+	}
+	var sb strings.Builder
+	sb.WriteString("REQS")
+	for _, q := range reqs {
+		sb.WriteString(" " + common.Hex(q.Method) + ":" + common.Hex(q.URL.String()))
+	}
+	p := "0"
+	if plain {
+		p = "1"
+	}
+	in := fmt.Sprintf("T %s %s %s %s %s", p, common.Hex(base.Registry), common.Hex(base.Repository), common.Hex(src), common.Hex(opManifestDesc.Digest.String()))
+	for _, d := range dsts {
+		in += " " + common.Hex(d)
+	}
+	run.Case(id, in, sb.String())
+	run.Count("oras_tag")
+	if len(reqs) > 1 {
+		run.Count("oras_tag_put")
+		run.Nontrivial("T:" + base.String() + "|" + src + "|" + strings.Join(dsts, "|"))
+	}
+	prefix := "/v2/" + base.Repository + "/manifests/"
+	for i, q := range reqs {
+		wantMethod := "PUT"
+		if i == 0 {
+			wantMethod = "GET"
+		}
+		if q.Method != wantMethod || q.URL.Host != base.Host() || q.URL.User != nil || q.URL.RawQuery != "" || q.URL.Fragment != "" ||
+			!strings.HasPrefix(q.URL.EscapedPath(), prefix) || strings.Contains(q.URL.EscapedPath()[len(prefix):], "/") {
+			run.OracleFail(id, "op-url-slot", fmt.Sprintf("oras.TagN(%q -> %q) on %v sent %s %s as request %d", src, dsts, base, q.Method, q.URL, i), rep)
+			return
+		}
+	}
+	if namesOtherRepository(base, src) && len(reqs) > 0 {
+		run.OracleFail(id, "repo-foreign-path", fmt.Sprintf("oras.TagN(%q) on %v sent %s %s: the source names a path that is not the base repository", src, base, reqs[0].Method, reqs[0].URL), rep)
+	}
+	if wantSrc == "" {
+		return
+	}
+	run.Count("oras_tag_ground_truth")
+	if len(reqs) == 0 || reqs[0].URL.EscapedPath() != prefix+wantSrc {
+		run.OracleFail(id, "op-url-reference", fmt.Sprintf("oras.TagN(%q -> %q) on %v: first request is not GET %s%s (%d requests)", src, dsts, base, prefix, wantSrc, len(reqs)), rep)
+		return
+	}
+	if okDigest(wantSrc) && wantSrc != opManifestDesc.Digest.String() {
+		return // the registry serves another digest: the fetch fails, nothing is tagged
+	}
+	if len(reqs) != 1+len(wantDsts) {
+		run.OracleFail(id, "op-url-reference", fmt.Sprintf("oras.TagN(%q -> %q) on %v sent %d requests, want 1 GET + %d PUT", src, dsts, base, len(reqs), len(wantDsts)), rep)
+		return
+	}
+	for i, w := range wantDsts {
+		if reqs[i+1].URL.EscapedPath() != prefix+w {
+			run.OracleFail(id, "op-url-reference", fmt.Sprintf("oras.TagN(%q -> %q) on %v: PUT %d goes to %s, want %s%s", src, dsts, base, i, reqs[i+1].URL, prefix, w), rep)
+			return
 		}
 	}
 }
